@@ -14,6 +14,10 @@ NOTE = ("exhaustive only within the bounded universes listed in the evidence fil
         "harness/realize.py are trusted")
 
 ENGINES = {
+    "tlc-fogwalk": ("spec/FogWalk.tla", "TLA+ specification of the documented fog-guided walking loop (HexaryTrieFog + "
+                    "TrieFrontierCache + traverse / traverse_from + simulated nodes) interleaved with mutations of the "
+                    "trie, model checked by TLC over all schedules; SpecOrdered is NodeIterator.nodes(); behaviours "
+                    "replayed on real objects by harness/fogwalk.py"),
     "tlc-scratchdb": ("spec/ScratchDB.tla", "TLA+ specification of trie.utils.db.ScratchDB (buffer, ghost latest-action "
                       "map, every way of leaving batch_commit), model checked exhaustively by TLC (with and without "
                       "state merging) and simulated; every behaviour replayed on the real class by harness/scratchdb.py"),
@@ -78,6 +82,15 @@ add("C17", "tlc-scratchdb", "the action properties WrappedOnlyOnCommit, CommitAp
     "bounded length (history kept in the state, no merging) and random long ones are replayed on the real class",
     technique="TLA+ specification model checked exhaustively with TLC and simulated; bound to the code by replaying "
     "every TLC-generated behaviour on the real class through its public API")
+add("C09", "tlc-fogwalk", "all schedules of the bounded model: every initial trie, every order of exploration, every "
+    "interleaving with a bounded number of inserts / overwrites / deletes, frontier cache on and off, pruning on and "
+    "off (stale cache entries -> MissingTraversalNode -> entry dropped); Antichain, NothingInvented, WalkComplete, "
+    "ExactWhenStatic and the termination measure are checked by TLC; every transition is replayed with a real trie, "
+    "fog and cache, the real walk is then continued to completion and judged against the real history of contents")
+add("C10", "tlc-hexary", "KeyAfterIsSucc (transcription of _get_key_after equals the strict successor defined on the "
+    "key set), FirstIsMin, PreorderItemsSorted, PreorderIsTraverse on every reachable trie, and OrderedIsPreorder on "
+    "the fog-walk specification restricted to the left-most prefix (the loop of nodes()); for every reachable "
+    "state the real keys/items/values/nodes/next are compared with the emitted sequences and answers")
 
 
 def build():
